@@ -1,18 +1,4 @@
-#![allow(dead_code)]
-mod alloc;
-mod bz2;
-mod default_ports;
-mod entries;
-mod findings;
-mod registry;
-mod panics;
-mod realnet;
-mod runner;
-mod wire;
-mod xmlcheck;
-mod models;
-mod props;
-mod util;
+use gdv::{alloc, props, runner};
 
 use runner::{Opts, Tier};
 use std::io::Write;
@@ -33,6 +19,24 @@ fn main() {
         usage();
     }
     let id = args[1].clone();
+    if id == "fuzz-corpus" {
+        // gdv fuzz-corpus <dir> <n> <seed>: byte-encoded cases from the C01 / C13 generators as the starting corpus of the fuzz targets
+        let dir = PathBuf::from(args.get(2).cloned().unwrap_or_else(|| usage()));
+        let n: u64 = args.get(3).and_then(|s| s.parse().ok()).unwrap_or(2000);
+        let seed: u64 = args.get(4).and_then(|s| s.parse().ok()).unwrap_or(1);
+        let _ = std::fs::create_dir_all(&dir);
+        let (s1, s2) = (gdv::props::hostile::hcase(false), gdv::props::hostile::hcase(true));
+        let mut written = 0;
+        for i in 0 .. n {
+            let c = if i % 2 == 0 { runner::sample_one(&s1, &format!("fuzz-corpus-{seed}"), i) } else { runner::sample_one(&s2, &format!("fuzz-corpus-{seed}"), i) };
+            let bytes = gdv::props::hostile::encode_case(&c);
+            if bytes.len() <= 60_000 && std::fs::write(dir.join(format!("seed-{i:06}")), &bytes).is_ok() {
+                written += 1;
+            }
+        }
+        println!("{written}");
+        return;
+    }
     let mut tier = match std::env::var("VERIF_TIER").ok().as_deref() {
         Some("thorough") => Tier::Thorough,
         _ => Tier::Quick,
